@@ -55,6 +55,8 @@ enum Cmd {
     Build,
     /// build with --proportion-reads 0.5 from files of two records each (every second record is skipped)
     BuildHalf,
+    /// build from paired FASTQ samples with --min-count auto (the coverage model is fitted first, on the first pair)
+    BuildAuto,
     AlignSkf,
     AlignFa,
     MapAlnSkf,
@@ -90,6 +92,15 @@ fn run_cmd(cmd: Cmd, dir: &str, files: &[String], threads: usize, seed: u64) -> 
             let mut a = vec!["build", "-k", "17", "-o", "b", "--proportion-reads", "0.5", "--threads", &ts];
             a.extend(fa.iter());
             let o = cli::run(&a, dir, Some(seed));
+            let canon = match FileState::read(&format!("{dir}/b.skf")) {
+                Ok(s) => format!("{:?}", s.table),
+                Err(e) => format!("unreadable: {e}"),
+            };
+            (o.code, canon, tail(&o))
+        }
+        Cmd::BuildAuto => {
+            let _ = std::fs::remove_file(format!("{dir}/b.skf"));
+            let o = cli::run(&["build", "-k", "17", "-o", "b", "-f", "reads.list", "--min-count", "auto", "--threads", &ts], dir, Some(seed));
             let canon = match FileState::read(&format!("{dir}/b.skf")) {
                 Ok(s) => format!("{:?}", s.table),
                 Err(e) => format!("unreadable: {e}"),
@@ -156,6 +167,9 @@ pub fn run_sweep(ctx: &Ctx, rep: &mut Report) {
     for n in [9usize, 10, 21, 70] {
         groups.push((Cmd::BuildHalf, n));
     }
+    for n in [2usize, 11] {
+        groups.push((Cmd::BuildAuto, n));
+    }
     // scaffold gaps: sample 3 of 12 carries one unbroken run of 8 000 / 30 000 N (read on a pool thread as soon as
     // --threads >= 2: smaller stack than the main thread's); n + GAP_MARK * gap encodes the group
     const GAP_MARK: usize = 1000;
@@ -187,6 +201,36 @@ pub fn run_sweep(ctx: &Ctx, rep: &mut Report) {
         let _ = std::fs::remove_dir_all(&dir);
         std::fs::create_dir_all(&dir).unwrap();
         std::fs::write(format!("{dir}/ref.fa"), scratch::fasta_named(&[("chr".into(), g.clone())])).unwrap();
+        if cmd == Cmd::BuildAuto {
+            // n samples of paired reads: a 2 kb genome (a substitution per sample) tiled at 20x by reads of 80 letters,
+            // alternately into the two files, every third read reverse-complemented, every seventh with one error
+            let big = lo::ancestor(2000, 17, ctx.seed + 13);
+            let mut list = String::new();
+            for i in 0..n {
+                let mut gi = big.clone();
+                gi[100 + 37 * i] = comp(gi[100 + 37 * i]);
+                let mut fq = [String::new(), String::new()];
+                let mut r = 0usize;
+                let mut p = 0usize;
+                while p + 80 <= gi.len() {
+                    let mut read = gi[p..p + 80].to_vec();
+                    if r % 7 == 3 {
+                        let e = (r * 13) % 80;
+                        read[e] = comp(read[e]);
+                    }
+                    if r % 3 == 1 {
+                        read = rc_str(&read);
+                    }
+                    fq[r % 2].push_str(&format!("@r{r}\n{}\n+\n{}\n", String::from_utf8_lossy(&read), "I".repeat(80)));
+                    p += 4;
+                    r += 1;
+                }
+                std::fs::write(format!("{dir}/r{i}_1.fastq"), &fq[0]).unwrap();
+                std::fs::write(format!("{dir}/r{i}_2.fastq"), &fq[1]).unwrap();
+                list.push_str(&format!("rs{i}\tr{i}_1.fastq\tr{i}_2.fastq\n"));
+            }
+            std::fs::write(format!("{dir}/reads.list"), list).unwrap();
+        }
         let mut files = Vec::new();
         let second = lo::ancestor(200, 17, ctx.seed + 12);
         for (i, s) in samples.iter().enumerate() {
@@ -200,7 +244,7 @@ pub fn run_sweep(ctx: &Ctx, rep: &mut Report) {
             }
             files.push(format!("s{i}.fa"));
         }
-        if !matches!(cmd, Cmd::Build | Cmd::BuildHalf | Cmd::AlignFa | Cmd::MapAlnFa | Cmd::MapVcfFa) {
+        if !matches!(cmd, Cmd::Build | Cmd::BuildHalf | Cmd::BuildAuto | Cmd::AlignFa | Cmd::MapAlnFa | Cmd::MapVcfFa) {
             let mut a = vec!["build", "-k", "17", "-o", "in"];
             a.extend(files.iter().map(|s| s.as_str()));
             if cli::run(&a, &dir, Some(ctx.seed)).code != 0 {
